@@ -341,6 +341,28 @@ def Tbl.addLookup (t : Tbl) (l : List (String × Val)) : Tbl := l.foldl (fun t p
 
 def Tbl.ofLookups (ls : List (List (String × Val))) : Tbl := ls.foldl Tbl.addLookup []
 
+/-- a parameter of the condition: its name and its default value, if it has one -/
+abbrev CondParam := String × Option Val
+
+/-- `collect_variable_lookup`, the look-up of the condition's own variables: of the arguments of the call only those which
+the condition takes (the other arguments of the call are no variables of the condition), then the default values of the
+condition's parameters which the call does not supply -/
+def condLookup (params : List CondParam) (kwargs : List (String × Val)) : List (String × Val) :=
+  let own := kwargs.filter (fun p => params.any (fun q => q.1 == p.1))
+  own ++ params.filterMap (fun q =>
+    match q.2 with
+    | some d => if (lookup own q.1).isSome then none else some (q.1, d)
+    | none => none)
+
+/-- the visitor's table for a call: the condition's own variables, then its closure, then the globals of its module -/
+def Tbl.ofCall (params : List CondParam) (kwargs closure globals : List (String × Val)) : Tbl :=
+  Tbl.ofLookups [condLookup params kwargs, closure, globals]
+
+/-- the table as it was built before the repairs e84b442 / dece18e: EVERY argument of the call was a variable of the
+condition, and the defaults of the condition's own parameters were unknown -/
+def Tbl.ofCallUpstream (kwargs closure globals : List (String × Val)) : Tbl :=
+  Tbl.ofLookups [kwargs, closure, globals]
+
 /-! ids of all nodes / of the nodes inside comprehensions (Python evaluates those in the comprehension's own scope) -/
 mutual
 def allIds : Expr → List Nat
